@@ -646,6 +646,10 @@ class PX:
             p = root[1]
             if isinstance(p, tuple) and p and p[0] == "slice_of":
                 return p[1]
+            if isinstance(p, tuple) and p and p[0] in ("bytes", "str"):
+                return p
+            if isinstance(p, tuple) and p and p[0] == "refconst":
+                return p[1]
             return ("deref", p)
         return ("uninit", root)
 
@@ -742,6 +746,8 @@ class PX:
             ty = o["place"]["ty"]
             if ty.get("k") == "int" and not is_const(v):
                 TY.setdefault(v, (ty["bits"], ty["signed"]))
+            elif ty.get("k") == "bool" and not is_const(v):
+                self.mark_bool(v)
             return st.cons.lookup(v)
         if k == "const":
             return self.eval_const(fr, o)
@@ -998,6 +1004,10 @@ class PX:
     zone_check = None  # optional feasibility oracle (set by rules that want pruning)
 
     def _is_boolish(self, d):
+        if d in self.__dict__.get("_bool_terms", ()):
+            return True
+        if d[0] == "eq":
+            return True
         if d[0] == "binop" and d[1] in CMP_OPS:
             return True
         if d[0] == "unop" and d[1] == "Not":
